@@ -10,10 +10,10 @@ git diff -- src > /tmp/$ID.patch
 cmake -G Ninja -S "$WT" -B "$WT/_build" >/dev/null 2>&1; cmake --build "$WT/_build" >/dev/null 2>&1 || { echo "BUILD FAILS with change"; exit 1; }
 T1=$(ctest --test-dir "$WT/_build" -j8 2>&1 | grep "tests passed")
 sh -c "$DEMO" > /tmp/$ID.with.out 2>&1; R1=$?
-git stash -q -- src
+git apply -R /tmp/$ID.patch || { echo "cannot reverse patch"; exit 2; }
 cmake --build "$WT/_build" >/dev/null 2>&1
 sh -c "$DEMO" > /tmp/$ID.without.out 2>&1; R0=$?
-git stash pop -q
+git apply /tmp/$ID.patch
 cmake --build "$WT/_build" >/dev/null 2>&1
 echo "suite with change: $T1"; echo "demo with change: exit $R1: $(tail -2 /tmp/$ID.with.out | tr '\n' ' ')"; echo "demo without change: exit $R0: $(tail -2 /tmp/$ID.without.out | tr '\n' ' ')"
 case "$T1" in "100% tests passed"*) ;; *) echo "NOT KEPT: suite does not pass"; exit 1;; esac
